@@ -63,6 +63,8 @@ pub struct Net {
     pub endpoints: Vec<Endpoint>,
     pub listeners: Vec<Listener>,
     pub by_addr: BTreeMap<String, usize>,
+    /// which node an address belongs to (known even while nothing listens there)
+    pub addr_owner: BTreeMap<String, u32>,
     /// (min,max) one-way latency in ns applied to node<->node traffic
     pub latency: (u64, u64),
     /// per ordered node pair override
@@ -85,6 +87,7 @@ impl Net {
             endpoints: Vec::new(),
             listeners: Vec::new(),
             by_addr: BTreeMap::new(),
+            addr_owner: BTreeMap::new(),
             latency: (0, 0),
             link_latency: BTreeMap::new(),
             partitions: Vec::new(),
